@@ -555,7 +555,21 @@ def k9_k10(F, rep, contracts):
     fnarm = [a for a in T.expr if a["label"] == "Function"]
     first = fnarm[0]["items"][0] if fnarm and fnarm[0]["items"] else None
     fdef = F.fn(CG + "definition")
-    guard = any("Expression::Function" in pp(i["c"]) for i in nodes(fn_body(fdef), "If"))
+    # every divergence in definition() sits under a test that the value is a function literal: the then-branch of an `if`
+    # whose condition tests Expression::Function, or a match arm over that variant
+    pns = list(panic_nodes(fn_body(fdef)))
+    guard = bool(pns)
+    for pn in pns:
+        dominated = False
+        for n_, parents in walk(fn_body(fdef)):
+            if n_ is pn:
+                for i_, p_ in enumerate(parents):
+                    if p_.get("k") == "If" and "Expression::Function" in pp(p_["c"]) and any(x is pn for x in nodes(p_["t"])):
+                        dominated = True
+                    if p_.get("k") is None and "pat" in p_ and "body" in p_ and \
+                            any((pat_variant(alt) or "").endswith("Expression::Function") for alt in pat_alternatives(p_["pat"])):
+                        dominated = True
+        guard = guard and dominated
     rep.ob("CONTRACT", "K9", bool(first) and first[0] == "op" and first[1] == "Function" and guard,
            "definition() rewrites code[0] only for function literals, whose lowering starts with IR::Function", fdef["sp"])
     for pn in panic_nodes(fn_body(fdef)):
